@@ -31,7 +31,7 @@ fn q(x: &str) -> String {
 pub fn rules(th: bool) -> Vec<(String, String, String)> {
     let pats = {
         let mut p = strings(&["a", "A", "i", "I", "*", "?"], if th { 4 } else { 3 });
-        for x in ["'a'", "\"A\"", "'*a'", "b", "ab", "aB*", "*Ab", "?^a", "?A$", "?(a|B)", ">1", "=1", ">=1.5", "i>1", "?.*a", "?a.*", "?.*A.*", "?.*", "?^\\S+$", "?\\D", "?a\\W", "?\\Bb", "?^\\s*$", "?(?P<x>a)b", "?[^\\W]", "?\\x41", "?\\pL", "k", "*k", "k*", "*k*", "K", "s*", "*ss*", "ak"] {
+        for x in ["'a'", "\"A\"", "'*a'", "b", "ab", "aB*", "*Ab", "?^a", "?A$", "?(a|B)", ">1", "=1", ">=1.5", "i>1", "?.*a", "?a.*", "?.*A.*", "?.*", "?^\\S+$", "?\\D", "?a\\W", "?\\Bb", "?^\\s*$", "?(?P<x>a)b", "?[^\\W]", "?\\x41", "?\\pL", "k", "*k", "k*", "*k*", "K", "s*", "*ss*", "ak", "1*", "*1", "1", "*1*", "-", "12*"] {
             p.push(x.to_string());
         }
         p
@@ -169,6 +169,12 @@ pub fn docs() -> Vec<MObj> {
     out.push(MObj::new().with("f", MVal::Float(1.5)));
     out.push(MObj::new().with("f", MVal::Bool(true)));
     out.push(MObj::new().with("f", arr(vec![s("A"), s("i")])));
+    // arrays whose elements satisfy different list members (a merged search is counted per
+    // element, separate searches per member)
+    for (a, b) in [("1x", "yA"), ("1a", "A1"), ("a", "A"), ("1", "a"), ("i1", "I"), ("12x", "yAB"), ("-", "a")] {
+        out.push(MObj::new().with("f", arr(vec![s(a), s(b)])));
+        out.push(MObj::new().with("f", arr(vec![s(b), s(a), MVal::Int(1)])));
+    }
     out
 }
 
